@@ -282,6 +282,19 @@ def summarize(prop, tier, seed, lemmas, tasks, results, wall):
                     n_failed_known += 1
                 else:
                     violations.append(f)
+            elif f["native"] == "no-native-counterpart":
+                # a failed obligation without a replayable input (frame / ghost obligations): still a violation
+                hit = None
+                for k in kn:
+                    if k["_rx"].search(key):
+                        hit = k
+                        break
+                if hit is not None:
+                    hit["_hits"] += 1
+                    n_failed_known += 1
+                else:
+                    f["_nofail"] = True
+                    violations.append(f)
             elif f["native"] == "spurious" or f["native"] == "confirmed-other-clause":
                 spurious.append(f)
             else:
@@ -323,7 +336,7 @@ def report(s, manifest_level):
         vio_keys.add(k2)
         nrep += 1
         path = write_replay(prop, nrep, f)
-        print("VIOLATION property=%s replay=%s" % (prop, path))
+        print("VIOLATION property=%s replay=%s%s" % (prop, path, " no-failing-input-found" if f.get("_nofail") else ""))
         print("  obligation %s/%s::%s  %s" % (f["_lemma"], f["_cell"], f["clause"], f.get("signature")))
         code = 1
         if nrep >= 40:
